@@ -419,7 +419,7 @@ _EXTRA_FLOORS = {
     "C02": {"optyping:typed-filter:accepted": 3500, "optyping:match-coverage:accepted": 75, "optyping:union-call:accepted": 300, "unreachable-code:accepted": 700, "stdlib-sweep-calls": 10000},
     "C03": {"first-use-in-fresh-process:ok": 100, "unreachable-code:accepted": 900, "union-call:accepted": 300, "special-constants:accepted": 12000},
     "C04": {"identity-twin-templates": 24},
-    "C05": {"probes-after-unrelated-work": 450},
+    "C05": {"probes-after-unrelated-work": 450, "programs-executed-again": 5000},
     "C06": {"closure-creation-templates": 14, "name-shape-templates": 380},
     "C07": {"order-family-cases": 5000, "scale-cases": 450},
     "C08": {"form_same_operand": 1000, "form_comparison_compound": 100000},
